@@ -23,6 +23,7 @@ COQ = vlib.COQ
 
 SHARED = ["Expr/IO.vo", "Eval/TableProofs.vo", "Eval/LambdaModel.vo", "Eval/EvalFloat.vo"]
 PROOF_MODULES = []   # coq/C14/*.v are compiled directly with coqc (OWN_FILES, in dependency order) until listed in _CoqProject
+MODEL_FILES = ["C14/LlvmTerm.v", "C14/Gen_LlvmRules.v", "C14/LlvmModel.v", "C14/LlvmRun.v"]
 OWN_FILES = ["C14/LlvmTerm.v", "C14/Gen_LlvmRules.v", "C14/LlvmModel.v", "C14/LlvmRun.v", "C14/LlvmProofs.v", "C14/LlvmTable.v"]
 OBLIGATIONS = ["C14/P_compile_sound.v", "C14/P_flatten_correct.v", "C14/P_llvm_rules_agree_eval.v", "C14/P_llvm_accepts.v",
                "C14/P_llvm_pow_ideal.v", "C14/P_init_stateless.v", "C14/P_cse_symbols_first.v", "C14/P_nonvacuous.v"]
@@ -75,6 +76,12 @@ def run_translator(ctx):
 
 
 def build_own(ctx):
+    if vlib.in_project(OWN_FILES[0]):
+        # part of the shared Makefile: make builds the model and proof files (make -k: a broken proof file leaves the model usable)
+        ok, log = ctx.coq_make(SHARED + [f[:-2] + ".vo" for f in OWN_FILES])
+        if not ok:
+            ctx.broken.append({"kind": "proof", "name": "C14 proof modules", "detail": log[-2500:]})
+        return all(os.path.exists(os.path.join(COQ, f + "o")) for f in MODEL_FILES)
     ok, log = ctx.coq_make(SHARED)
     if not ok:
         ctx.broken.append({"kind": "proof", "name": "shared modules", "detail": log[-2500:]})
